@@ -11,10 +11,10 @@ var lockTable = map[string]LockSpec{
 	"Fetcher":        {Struct: "scanner.Fetcher", Mutex: "mu", Fields: []string{"cancel"}},
 	"safeSubmissionState": {Struct: "submission.safeSubmissionState", Mutex: "mu", Fields: []string{"logToGroups", "groupNeeds", "results", "cancels"},
 		Init: []string{"submission.newSafeSubmissionState"}},
-	"Distributor":    {Struct: "submission.Distributor", Mutex: "mu", Fields: []string{"logRoots", "rootPool", "rootDataFull"}},
-	"Proxy":          {Struct: "submission.Proxy", Mutex: "distMu", Fields: []string{"dist", "distCancel"}},
-	"LogListManager": {Struct: "submission.LogListManager", Mutex: "mu", Fields: []string{"latestLL", "previousLL"}},
-	"LogGroupInfo":   {Struct: "ctpolicy.LogGroupInfo", Mutex: "wMu", Fields: []string{"LogWeights"}, Init: []string{"(*ctpolicy.LogGroupInfo).populate"}},
+	"Distributor":          {Struct: "submission.Distributor", Mutex: "mu", Fields: []string{"logRoots", "rootPool", "rootDataFull"}},
+	"Proxy":                {Struct: "submission.Proxy", Mutex: "distMu", Fields: []string{"dist", "distCancel"}},
+	"LogListManager":       {Struct: "submission.LogListManager", Mutex: "mu", Fields: []string{"latestLL", "previousLL"}},
+	"LogGroupInfo":         {Struct: "ctpolicy.LogGroupInfo", Mutex: "wMu", Fields: []string{"LogWeights"}, Init: []string{"(*ctpolicy.LogGroupInfo).populate"}},
 	"logListRefresherImpl": {Struct: "submission.logListRefresherImpl", Mutex: "updateMu", Fields: []string{"lastJSON"}},
 }
 
